@@ -115,6 +115,25 @@ func genC09(seed uint64, tier string) Plan {
 			now += adv
 		case c.HasL2() && g.p(1, 6):
 			p.Steps = append(p.Steps, Step{Evict: []string{pick(g, append([]string{"*"}, keys...))}})
+		case g.p(1, 8):
+			// a directed fragment: store (often an empty or tiny value), change the lifetime
+			// with touch or get-and-touch, then rewrite the item through append / prepend -
+			// the lifetime last asked for has to survive the rewrite
+			ci := g.n(len(p.Conns))
+			proto := p.Conns[ci].Proto
+			k := pick(g, keys)
+			opq += 40
+			set := wire.Op{Kind: "set", Key: k, Data: g.value(pick(g, []int{0, 0, 1, 3, 1100})), Flags: g.flags(), TTL: g.ttl(now, true), Opaque: opq}
+			retime := wire.Op{Kind: pick(g, []string{"touch", "gat"}), Key: k, TTL: g.ttl(now, true), Opaque: opq + 10}
+			if proto == "text" {
+				set.Opaque, retime.Opaque = 0, 0
+				retime.Kind = "touch"
+			}
+			rewrite := wire.Op{Kind: pick(g, []string{"append", "prepend"}), Key: k, Data: g.value(pick(g, []int{1, 4})), Opaque: opq + 20}
+			if proto == "text" {
+				rewrite.Opaque = 0
+			}
+			p.Steps = append(p.Steps, Step{Conn: ci, Op: &set}, Step{Conn: ci, Op: &retime}, Step{Conn: ci, Op: &rewrite})
 		default:
 			ci := g.n(len(p.Conns))
 			op := g.dataOp(p.Conns[ci].Proto, keys, now, true, &opq)
@@ -141,7 +160,7 @@ func init() {
 			}
 			return false
 		},
-		Rule:      "seeded command sequences with TTLs from {0, 1-5 s, large relative, 30 days -1/0/+1, absolute near future, absolute around and far beyond 30 days ahead, absolute now/past} incl. touch/gat/append/prepend, clock steps (1 s .. 31 days) and L1 evictions x orchestrator (main and batch port, with/without locking) x L1 handler {direct, chunked, batched} x L2 handler {direct, batched} x both GETE expiry encodings; after every command the deadline recorded by each simulated backend for every entry (chunked: metadata, every chunk, and the expiry inside the metadata) is compared with the reference map; non-trivial = some command carries a non-zero TTL",
+		Rule:      "seeded command sequences with TTLs from {0, 1-5 s, large relative, 30 days -1/0/+1, absolute near future, absolute around and far beyond 30 days ahead, absolute now/past} incl. touch/gat/append/prepend (and directed fragments: store an empty or small value, re-time it with touch or gat, rewrite it through append / prepend), clock steps (1 s .. 31 days) and L1 evictions x orchestrator (main and batch port, with/without locking) x L1 handler {direct, chunked, batched} x L2 handler {direct, batched} x both GETE expiry encodings; after every command the deadline recorded by each simulated backend for every entry (chunked: metadata, every chunk, and the expiry inside the metadata) is compared with the reference map; non-trivial = some command carries a non-zero TTL",
 		Real:      append(append([]string{}, realFullStack...), "handlers/memcached/chunked", "handlers/memcached/batched (pool, batcher, reader, monitor)"),
 		Stub:      stubFullStack,
 		RunsQuick: 5000, RunsThorough: 120000,
